@@ -55,7 +55,8 @@ partial def scanBlocks (cs : List Char) (m : Nat) (acc : Cnt × Nat) : Option (L
       match rest with
       | '(' :: rest =>
         let m' := if !up && k = 'c' then 2 * m else m
-        let acc := (acc.1.add n m', if meet then acc.2 + m' else acc.2)
+        -- kinds E (uncaught error) and p (panic) end the whole role execution: counted once per role
+        let acc := (acc.1.add n m', (if meet then acc.2 + m' else acc.2) + (if !up && (k = 'E' || k = 'p') then 1000000 else 0))
         match scanBlocks rest m' acc with
         | some (')' :: rest, acc) => scanBlocks rest m acc
         | _ => none
@@ -83,7 +84,8 @@ inductive Obs where
 
 def parseOutcome (c : Char) : Option Outcome :=
   if c = 'n' then some .normal else if c = 'e' then some .error else if c = 'r' then some .ret
-  else if c = 'b' then some .brk else if c = 'c' then some .cont else none
+  else if c = 'b' then some .brk else if c = 'c' then some .cont
+  else if c = 'E' then some .error else if c = 'p' then some .panic else none
 
 def parseObs (s : String) : Option Obs :=
   match s.toList with
@@ -194,7 +196,12 @@ def runCase (line : String) : String :=
       let v := variant.toList.headD 'p'
       let phases := if v = 'r' || v = 'f' then (variant.drop 1).toString.toNat! + 1 else 1
       let wk := if v = 'w' || v = 'r' || v = 'f' then g * phases else 0
-      s!"ids={g * per.toNat! * phases} dup=0 zero=0 wk={wk} wdup=0\treplay=ok\tnt=1"
+      if v = 'x' then
+        -- two generators (the provider's processor was replaced in between): each hands out 1..n,
+        -- ids are unique per pool only — the second n ids repeat the first
+        s!"ids={2 * g * per.toNat!} dup={g * per.toNat!} zero=0 wk=0 wdup=0\treplay=ok"
+      else
+      s!"ids={g * per.toNat! * phases} dup=0 zero=0 wk={wk} wdup=0\treplay=ok"
     | [mode, threads, iters, _seed, roles] =>
       let threads := threads.toNat!
       let iters := iters.toNat!
@@ -207,7 +214,7 @@ def runCase (line : String) : String :=
           (acc.1.plus rc.1, acc.2 + rc.2)) ((0, 0, 0), 0)
         let cnt := sum.1
         let occ : Cnt := (min cnt.1 1, min cnt.2.1 1, min cnt.2.2 1)
-        let res := s!"occ={occ.str} cnt={cnt.str} done={total}/{total} meet={sum.2 / 2}"
+        let res := s!"occ={occ.str} cnt={cnt.str} done={total}/{total} meet={(sum.2 % 1000000) / 2} term={sum.2 / 1000000} end=0,0"
         let toks := if trace = "-" || trace = "" then [] else trace.splitOn "."
         match toks.mapM (fun t => (parseObs t).map fun o => (t, o)) with
         | none => res ++ "\treplay=bad-trace"
